@@ -10,7 +10,11 @@ RULE = ('formal: case = (table, backend, entry point in {get_minimal_generators_
         'get_minimal_generators by name}, intent (closed or not), base generator, base objects or None); exhaustive over all '
         'tables of the tier scope x every attribute subset as intent x every base generator inside the intent x every base '
         'object subset x 3 backends, a stream with base generators outside the intent, a stream with unsorted base lists, '
-        'then seeded random tables to 5x6; mv: interval tables on a small integer grid, intent = intention of an object '
+        'then seeded random tables to 5x6; histories on ONE context object (query, public mutation: attribute/object names '
+        'permuted or replaced, table replaced through BinTable.data, caller edits the returned list / re-fills its own list, '
+        'reads of .T/hash in between; then the same query again, by name and by both index entry points), every query judged '
+        'against the spec for the content at that moment; arguments passed as list/tuple/set/frozenset/dict keys (by index '
+        'also generator/iter/map); wide tables (9..11 attributes, up to 14 objects) with set/frozenset index collections; mv: interval tables on a small integer grid, intent = intention of an object '
         'subset, base objects = None / superset of the extent, optional base generator taken from the intent; '
         'non-trivial = mixed table and closed non-empty intent with a base generator or a proper base object subset '
         '(mv: extent neither empty nor everything); distinct = distinct (table, backend, mode, intent, bg, bo)')
@@ -18,6 +22,9 @@ EXHAUSTIVE = {
     'quick': 'all tables n,m<=3 (682) x all 2^m intents x all bg subset of intent x (None + all 2^n base object subsets) x 3 backends; '
              'bg not inside intent: same tables, bo in {None, all, one subset}; ordered (unsorted) bg/bo lists: tables with n*m<=6; '
              'by-name and use_indexes=True entry points: all tables n,m<=2 incl. base_objects=None; '
+             'histories: all tables n*m<=6 x every (intent, bg inside intent) x {None, base object subsets (all when n*m<=4)} x '
+             'every non-identity permutation of the attribute names / 2 permutations of the object names / one table replacement '
+             '(3 backends when n*m<=4, else rotating); mv histories (psdata/permps/objs) on all 27 one-column 3-row point tables; '
              'mv: all one-column tables with <=3 rows over grid {0,1,2} (points) and all two-column point tables with 2..3 rows '
              '(grids {0,1} x {0,1,2}), all object-subset intents, base objects None / every ascending superset of the extent, '
              'base generator none / each projection-1 generator of the intent',
@@ -40,8 +47,38 @@ REQUESTS_NEED_IMPL = True
 MV_FUEL = 4
 MV_TIMEOUT_S = 5.0
 
-OBJ = ['g0', 'g1', 'g2', 'g3', 'g4', 'g5', 'g6', 'g7']
-ATT = ['a', 'b', 'c', 'd', 'e', 'f', 'g', 'h']
+OBJ = [f'g{i}' for i in range(16)]
+ATT = list('abcdefghijklmnop')
+
+# containers a caller may legally pass (H2).  By index every argument goes through set()/list() once, so one-shot
+# iterables are accepted; by name the arguments are used in repeated membership tests (documented type: List), so only
+# re-iterable containers are in scope there.  'samelist' = one list object per argument, re-filled in place by the caller.
+CONT_IDX = ('list', 'tuple', 'set', 'frozenset', 'gen', 'iter', 'map', 'dictkeys', 'samelist')
+CONT_NAME = ('list', 'tuple', 'set', 'frozenset', 'dictkeys', 'samelist')
+
+
+def _wrap(xs, kind, slot=None):
+    if xs is None:
+        return None
+    xs = list(xs)
+    if kind == 'tuple':
+        return tuple(xs)
+    if kind == 'set':
+        return set(xs)
+    if kind == 'frozenset':
+        return frozenset(xs)
+    if kind == 'gen':
+        return (x for x in xs)
+    if kind == 'iter':
+        return iter(xs)
+    if kind == 'map':
+        return map(lambda x: x, xs)
+    if kind == 'dictkeys':
+        return dict.fromkeys(xs).keys()
+    if kind == 'samelist' and slot is not None:
+        slot[:] = xs
+        return slot
+    return xs
 
 
 # ------------------------------------------------------------------ helpers (own code, not fcapy)
@@ -153,6 +190,13 @@ def _formal_malformed(rng, rows):
     # unknown names are silently ignored by the by-name entry point
     yield _fc('malformed', be, rows, 'n', intent, bg, bo if rng.random() < 0.5 else None, objs=OBJ[:n], attrs=ATT[:m],
               junk=rng.choice([['zz'], ['', 'G0'], ['A', 'a ']]))
+    # duplicated attribute / object names are accepted by the constructor; the by-name translation then selects every
+    # column / row carrying the name (model = implementation is all that is checked)
+    if m > 1 and n > 1:
+        da, do = list(ATT[:m]), list(OBJ[:n])
+        da[rng.randrange(1, m)] = da[0]
+        do[rng.randrange(1, n)] = do[0]
+        yield _fc('malformed', be, rows, 'n', intent, bg, bo, objs=do, attrs=da)
 
 
 # ------------------------------------------------------------------ many-valued (interval) cases
@@ -225,6 +269,19 @@ def gen(tier, seed, boost=False):
         yield from _formal_ordered(rows, 'exhaustive-ordered')
     for rows in G.tables_upto(2, 2):
         yield from _formal_names(rows, 'exhaustive-names')
+    # 1b. histories on one context object: query -> public mutation -> same query (H1), hostile callers (H2)
+    for k, rows in enumerate(G.tables_upto(3, 3, cells=6)):
+        small = len(rows) * len(rows[0]) <= 4
+        for be in (BACKENDS if small else (BACKENDS[k % 3],)):
+            yield from _hist_cases(rows, be, 'hist-exhaustive', rng, bo_all=small)
+    for k in range(30 if tier == 'quick' else 200):
+        rows = G.random_table(rng, 3, 3, nmin=3, mmin=3)
+        yield from _hist_cases(rows, BACKENDS[k % 3], 'hist-3x3', rng)
+    for _ in range(300 if tier == 'quick' else 4000):
+        yield from _hist_random(rng, G.random_table(rng, 5, 6), 'hist-random')
+    # 1c. shape extremes (H3)
+    for _ in range(50 if tier == 'quick' else 600):
+        yield from _wide_cases(rng, 'wide')
     # 2. exhaustive small scope (interval many-valued contexts)
     for nrows in (1, 2, 3):
         for col in _grid_columns(nrows, (0, 1, 2), intervals=False):
@@ -233,6 +290,13 @@ def gen(tier, seed, boost=False):
         for c0 in _grid_columns(nrows, (0, 1), intervals=False):
             for c1 in _grid_columns(nrows, (0, 1, 2), intervals=False):
                 yield from _mv_cases([c0, c1], 'mv-exhaustive-2col')
+    for col in _grid_columns(3, (0, 1, 2), intervals=False):
+        yield from _mvhist_cases([col], 'mvhist', rng)
+    for _ in range(60 if tier == 'quick' else 800):
+        n, k = rng.randint(2, 5), rng.randint(1, 3)
+        cols = [[(lambda a: [a, a if rng.random() < 0.6 else rng.randint(a, 5)])(rng.randint(0, 4)) for _g in range(n)]
+                for _j in range(k)]
+        yield from _mvhist_cases(cols, 'mvhist-random', rng)
     if thorough:
         for k, rows in enumerate(G.tables_upto(4, 4, cells=12)):
             n, m = len(rows), len(rows[0])
@@ -287,20 +351,25 @@ def _impl_fc(c):
     intent, bg, bo = list(c['intent']), c['bg'], c['bo']
     bg = None if bg is None else list(bg)
     bo = None if bo is None else list(bo)
+    ci, cg, co = c.get('cont') or ('list', 'list', 'list')
     try:
         if c['mode'] == 'i':
-            r = K.get_minimal_generators_i(intent, bg, bo)
+            r = K.get_minimal_generators_i(_wrap(intent, ci), _wrap(bg, cg), _wrap(bo, co))
         elif c['mode'] == 'gi':
-            r = K.get_minimal_generators(intent, bg, bo, use_indexes=True)
+            r = K.get_minimal_generators(_wrap(intent, ci), _wrap(bg, cg), _wrap(bo, co), use_indexes=True)
         else:
             junk = c.get('junk', ())
-            r = K.get_minimal_generators(_names(intent, c['attrs'], junk), _names(bg, c['attrs'], junk),
-                                         _names(bo, c['objs'], junk), use_indexes=False)
+            r = K.get_minimal_generators(_wrap(_names(intent, c['attrs'], junk), ci), _wrap(_names(bg, c['attrs'], junk), cg),
+                                         _wrap(_names(bo, c['objs'], junk), co), use_indexes=False)
     except Exception as e:
         return {'err': exc_name(e)}
+    return _canon_fc(r, c['mode'])
+
+
+def _canon_fc(r, mode):
     if not isinstance(r, list) or not all(isinstance(t, tuple) for t in r):
         return {'bad_type': repr(type(r))}
-    if c['mode'] == 'n':
+    if mode == 'n':
         ts = [[str(x) for x in t] for t in r]
     else:
         ts = [[int(x) for x in t] for t in r]
@@ -310,6 +379,10 @@ def _impl_fc(c):
 def impl(c):
     if c['kind'] == 'fc':
         return _impl_fc(c)
+    if c['kind'] == 'hist':
+        return _impl_hist(c)
+    if c['kind'] == 'mvhist':
+        return _impl_mvhist(c)
     return _impl_mv(c)
 
 
@@ -321,6 +394,12 @@ def _table_req(c):
 def requests(c, io=None):
     if c['kind'] == 'mv':
         return _requests_mv(c, io or {})
+    if c['kind'] == 'hist':
+        return [r for pc in _hist_queries(c) for r in requests(pc)]
+    if c['kind'] == 'mvhist':
+        outs = (io or {}).get('outs') or []
+        qs = list(_mvhist_queries(c))
+        return [r for k, pc in enumerate(qs) for r in _requests_mv(pc, outs[k] if k < len(outs) else {})]
     n = len(c['rows'])
     base = _table_req(c)
     if c['mode'] in ('i', 'gi'):
@@ -357,7 +436,12 @@ def _judge_fc(c, io, rep):
     if 'ok' not in rn:
         return dict(ok=False, kind='harness', detail=f'by-name model failed: {rn}')
     attrs = c['attrs']
-    if not malformed or True:
+    if malformed and len(set(attrs)) < len(attrs):
+        # duplicated names (outside the property): distinct index tuples may carry equal name tuples
+        if io.get('ok') == rn['ok']:
+            return dict(ok=True)
+        return dict(ok=False, kind='correspondence', detail=f'duplicated names: implementation {io}, model {rn["ok"]}')
+    if True:
         img = sorted([[attrs[i] for i in t] for t in ri['spec']])
         if rn['ok'] != img:
             return dict(ok=False, kind='harness',
@@ -370,10 +454,18 @@ def _judge_fc(c, io, rep):
 def judge(c, io, rep):
     if c['kind'] == 'fc':
         return _judge_fc(c, io, rep)
+    if c['kind'] == 'hist':
+        return _judge_hist(c, io, rep)
+    if c['kind'] == 'mvhist':
+        return _judge_mvhist(c, io, rep)
     return _judge_mv(c, io, rep)
 
 
 def nontrivial(c):
+    if c['kind'] == 'hist':
+        return G.is_mixed(c['rows']) and sum(1 for st in c['steps'] if st['op'] == 'q') >= 2
+    if c['kind'] == 'mvhist':
+        return sum(1 for st in c['steps'] if st['op'] == 'q') >= 2
     if c['kind'] == 'fc':
         return (G.is_mixed(c['rows']) and len(c['intent']) > 0 and _is_closed(c['rows'], c['intent'])
                 and (bool(c['bg']) or (c['bo'] is not None and len(c['bo']) < len(c['rows']))))
@@ -383,30 +475,54 @@ def nontrivial(c):
 
 
 def key(c):
+    if c['kind'] == 'hist':
+        return ['hist', c['rows'], c['be'], c['objs'], c['attrs'], c['steps']]
+    if c['kind'] == 'mvhist':
+        return ['mvhist', c['cols'], c['np'], c['steps']]
     if c['kind'] == 'fc':
-        return ['fc', c['rows'], c['be'], c['mode'], c['intent'], c['bg'], c['bo'], c.get('junk')]
+        return ['fc', c['rows'], c['be'], c['mode'], c['intent'], c['bg'], c['bo'], c.get('junk'), c.get('cont')]
     return ['mv', c['cols'], c['iobjs'], c['bo'], c['bgspec'], c['np']]
 
 
 def branch(c, io, rep):
+    if c['kind'] in ('hist', 'mvhist'):
+        ops = sorted({st['op'] if st['op'] != 'q' else 'q:' + st['mode'] for st in c['steps']})
+        conts = sorted({'cont:' + k for st in c['steps'] if st['op'] == 'q' for k in (st.get('cont') or [])})
+        return [c['stream']] + [c['kind'] + ':' + o for o in ops] + conts
     if c['kind'] == 'fc':
         closed = _is_closed(c['rows'], c['intent'])
         inside = c['bg'] is None or set(c['bg']) <= set(c['intent'])
         size = 'err' if 'err' in io else ('empty' if not io.get('ok') else f'level{len(io["ok"][0])}x{min(len(io["ok"]), 3)}')
         return [c['stream'], f"fc:{c['be']}:{c['mode']}", 'intent-closed' if closed else 'intent-not-closed',
-                'bg-inside' if inside else 'bg-outside', 'bo-none' if c['bo'] is None else 'bo-given', 'fc:' + size]
+                'bg-inside' if inside else 'bg-outside', 'bo-none' if c['bo'] is None else 'bo-given', 'fc:' + size] + \
+            ['cont:' + k for k in sorted(set(c.get('cont') or []))]
     return [c['stream'], 'mv:np' if c['np'] else 'mv:nonp', 'mv:bg' if c['bgspec'] else 'mv:nobg',
             'mv:bo-none' if c['bo'] is None else 'mv:bo-given',
             'mv:err:' + io['err'] if 'err' in io else f'mv:gens{min(len(io.get("ok", [])), 4)}']
 
 
 def signature(c, io, rep, v):
+    if c['kind'] in ('hist', 'mvhist'):
+        muts = '+'.join(sorted({st['op'] for st in c['steps'] if st['op'] != 'q'}))
+        return f"C18:{c['kind']}:{muts}:{v.get('qmode', '?')}:{v.get('kind')}"
     if c['kind'] == 'fc':
         return f"C18:fc:{c['be']}:{c['mode']}:{'err:' + io['err'] if 'err' in io else 'wrong'}"
     return f"C18:mv:{'err:' + io['err'] if 'err' in io else 'wrong'}"
 
 
 def shrink(c):
+    if c['kind'] in ('hist', 'mvhist'):
+        steps = c['steps']
+        for i in range(len(steps) - 1):          # drop any step but the last one
+            d = dict(c)
+            d['steps'] = steps[:i] + steps[i + 1:]
+            yield d
+        for i, st in enumerate(steps):           # plain lists instead of other containers
+            if st['op'] == 'q' and st.get('cont') and any(k != 'list' for k in st['cont']):
+                d = dict(c)
+                d['steps'] = steps[:i] + [dict(st, cont=['list', 'list', 'list'])] + steps[i + 1:]
+                yield d
+        return
     if c['kind'] == 'fc':
         if c['mode'] == 'n':
             return
@@ -459,7 +575,7 @@ def _enc_descr(d):
 
 
 def _mv_intent_and_bg(c):
-    intent = _mv_int(c['cols'], c['iobjs'])
+    intent = c['intent'] if c.get('intent') is not None else _mv_int(c['cols'], c['iobjs'])
     bg = None
     if c['bgspec']:
         bg = {}
@@ -523,8 +639,8 @@ def _judge_mv(c, io, rep):
         return dict(ok=False, kind='harness', detail=f'a generator of the model fails the checker (contradicts '
                                                      f'mv_gens_same_extension): {r["model"]}')
     if 'err' in io:
-        if r['model'] == io:
-            # the routine raised, the model raises the same class: nothing is returned, nothing to judge
+        if r['model'] == io or (io['err'] == 'Timeout' and r['model'] == {'err': 'OutOfFuel'}):
+            # the routine raised (or does not terminate), the model does the same: nothing is returned, nothing to judge
             return dict(ok=True)
         return dict(ok=False, kind='correspondence', detail=f'implementation raised {io}, model {r["model"]}')
     bad = [g for g, okk in zip(io['ok'], r['check']) if not okk]
@@ -537,3 +653,367 @@ def _judge_mv(c, io, rep):
     if r['model'] != {'ok': got}:
         return dict(ok=False, kind='correspondence', detail=f'implementation returned {got}, model {r["model"]}')
     return dict(ok=True)
+
+
+# ------------------------------------------------------------------ histories on ONE context object (H1, H2)
+def _hist(stream, be, rows, objs, attrs, steps):
+    return dict(stream=stream, kind='hist', be=be, rows=rows, objs=list(objs), attrs=list(attrs), steps=steps)
+
+
+def _q(mode, intent, bg, bo, cont=None):
+    """a query step; by name (mode 'n') the three arguments are NAME lists, else index lists"""
+    return dict(op='q', mode=mode, intent=intent, bg=bg, bo=bo, cont=list(cont or ('list', 'list', 'list')))
+
+
+def _idx_of(names, sel):
+    return None if sel is None else [i for i, nm in enumerate(names) if nm in sel]
+
+
+def _hist_queries(c):
+    """replay the history on plain data; for every query step yield the equivalent single-query case for the
+    CURRENT content (this is what a freshly built context with the current table and names must answer)"""
+    rows, objs, attrs = [list(r) for r in c['rows']], list(c['objs']), list(c['attrs'])
+    for st in c['steps']:
+        op = st['op']
+        if op == 'attrs':
+            attrs = list(st['names'])
+        elif op == 'objs':
+            objs = list(st['names'])
+        elif op == 'data':
+            rows = [list(r) for r in st['rows']]
+        elif op == 'q':
+            if st['mode'] == 'n':
+                intent, bg, bo = _idx_of(attrs, st['intent']), _idx_of(attrs, st['bg']), _idx_of(objs, st['bo'])
+            else:
+                intent, bg, bo = st['intent'], st['bg'], st['bo']
+            yield _fc(c['stream'], c['be'], [list(r) for r in rows], st['mode'], intent, bg, bo,
+                      objs=list(objs), attrs=list(attrs))
+
+
+def _impl_hist(c):
+    from fcapy.context import FormalContext
+    K = FormalContext(data=[[bool(v) for v in r] for r in c['rows']], object_names=list(c['objs']),
+                      attribute_names=list(c['attrs']), backend=c['be'])
+    slots = {'intent': [], 'bg': [], 'bo': []}
+    outs, last = [], None
+    for k, st in enumerate(c['steps']):
+        op = st['op']
+        try:
+            if op == 'attrs':
+                K.attribute_names = list(st['names'])
+            elif op == 'objs':
+                K.object_names = list(st['names'])
+            elif op == 'data':
+                K.data.data = [[bool(v) for v in r] for r in st['rows']]
+            elif op == 'read':
+                _ = (K.T, hash(K), K.hash_fixed(), K.to_pandas() if st.get('pandas') else None)
+            elif op == 'mutret':
+                if isinstance(last, list):      # the caller edits the list it was handed
+                    last.append(('zz',))
+                    last.reverse()
+                    del last[1:]
+            elif op == 'q':
+                ci, cg, co = st['cont']
+                args = (_wrap(st['intent'], ci, slots['intent']), _wrap(st['bg'], cg, slots['bg']),
+                        _wrap(st['bo'], co, slots['bo']))
+                try:
+                    if st['mode'] == 'i':
+                        last = K.get_minimal_generators_i(*args)
+                    else:
+                        last = K.get_minimal_generators(*args, use_indexes=st['mode'] == 'gi')
+                    outs.append(_canon_fc(last, st['mode']))
+                except Exception as e:
+                    last = None
+                    outs.append({'err': exc_name(e)})
+        except Exception as e:
+            return {'steperr': f'step {k} ({op}) raised {exc_name(e)}: {str(e)[:120]}', 'outs': outs}
+    return {'outs': outs}
+
+
+def _judge_hist(c, io, rep):
+    if 'steperr' in io:
+        return dict(ok=False, kind='property', detail='a public mutator failed: ' + io['steperr'])
+    worst, pos = None, 0
+    for k, pc in enumerate(_hist_queries(c)):
+        nreq = 1 if pc['mode'] in ('i', 'gi') else 2
+        v = _judge_fc(pc, io['outs'][k], rep[pos:pos + nreq])
+        pos += nreq
+        if not v['ok']:
+            v = dict(v, qmode=pc['mode'], detail=f'query #{k} of the history (current table {pc["rows"]}, attribute names '
+                                                 f'{pc["attrs"]}, object names {pc["objs"]}): ' + v['detail'])
+            if v['kind'] == 'property':
+                return v
+            worst = worst or v
+    return worst or dict(ok=True)
+
+
+def _perms(xs, rng=None, k=None):
+    ps = [list(p) for p in itertools.permutations(xs) if list(p) != list(xs)]
+    if rng is not None and k is not None and len(ps) > k:
+        ps = rng.sample(ps, k)
+    return ps
+
+
+def _hist_cases(rows, be, stream, rng, bo_all=False):
+    """query -> public mutation -> the same query again (by name, by index, both index entry points)"""
+    n, m = len(rows), len(rows[0])
+    objs, attrs = OBJ[:n], ATT[:m]
+    bos = [None] + ([b for b in _subsets(n)] if bo_all else [rng.sample(range(n), rng.randint(0, n))])
+    for intent in _subsets(m):
+        for bgpos in _subsets(len(intent)):
+            bg = [intent[i] for i in bgpos]
+            for bo in bos:
+                ni, nb = [attrs[i] for i in intent], [attrs[i] for i in bg]
+                no = None if bo is None else [objs[g] for g in bo]
+                qn = _q('n', ni, nb if nb or rng.random() < 0.5 else None, no)
+                qi = _q(rng.choice(('i', 'gi')), intent, bg, bo)
+                # attribute names permuted (the same names denote other columns)
+                for p in _perms(range(m), rng, None if m <= 3 else 3):
+                    yield _hist(stream, be, rows, objs, attrs, [qn, dict(op='attrs', names=[attrs[j] for j in p]), qn, qi])
+                # object names permuted (only matters with base objects)
+                if bo is not None:
+                    for p in _perms(range(n), rng, 2):
+                        yield _hist(stream, be, rows, objs, attrs,
+                                    [qn, dict(op='objs', names=[objs[g] for g in p]), qn])
+                # table replaced through the public BinTable setter (same shape)
+                new = [[rng.randint(0, 1) for _ in range(m)] for _ in range(n)]
+                yield _hist(stream, be, rows, objs, attrs, [qi, qn, dict(op='data', rows=new), qi, qn])
+                # reads before/after, caller edits the returned list, caller re-fills its own list objects
+                yield _hist(stream, be, rows, objs, attrs,
+                            [dict(op='read'), qn, dict(op='mutret'), qn, qi, dict(op='mutret'), dict(op='read'), qi])
+
+
+def _hist_random(rng, rows, stream):
+    """longer random histories with all container kinds"""
+    n, m = len(rows), len(rows[0])
+    be = rng.choice(BACKENDS)
+    objs, attrs = list(OBJ[:n]), list(ATT[:m])
+    cur_rows, cur_objs, cur_attrs = [list(r) for r in rows], list(objs), list(attrs)
+    steps, pool = [], []
+    for _ in range(rng.randint(4, 9)):
+        r = rng.random()
+        if r < 0.55 or not pool:
+            if pool and rng.random() < 0.5:
+                q = dict(rng.choice(pool))           # an earlier query again, maybe through other containers
+            else:
+                seedset = rng.sample(range(m), rng.randint(0, m))
+                intent = _closure(cur_rows, seedset) if rng.random() < 0.8 else sorted(seedset)
+                rng.shuffle(intent)
+                bg = rng.sample(intent, rng.randint(0, min(2, len(intent))))
+                bo = rng.sample(range(n), rng.randint(0, n)) if rng.random() < 0.6 else None
+                mode = rng.choice(('n', 'n', 'i', 'gi'))
+                if mode == 'n':
+                    q = _q('n', [cur_attrs[i] for i in intent], [cur_attrs[i] for i in bg] if bg or rng.random() < 0.5 else None,
+                           None if bo is None else [cur_objs[g] for g in bo])
+                else:
+                    q = _q(mode, intent, bg if bg or rng.random() < 0.5 else None, bo)
+                pool.append(q)
+            kinds = CONT_NAME if q['mode'] == 'n' else CONT_IDX
+            q = dict(q, cont=[rng.choice(kinds) for _ in range(3)])
+            steps.append(q)
+        elif r < 0.70:
+            cur_attrs = rng.sample(cur_attrs, m) if rng.random() < 0.8 else [a + "'" for a in cur_attrs]
+            steps.append(dict(op='attrs', names=list(cur_attrs)))
+        elif r < 0.80:
+            cur_objs = rng.sample(cur_objs, n)
+            steps.append(dict(op='objs', names=list(cur_objs)))
+        elif r < 0.90:
+            cur_rows = G.random_table(rng, n, m, nmin=n, mmin=m)
+            steps.append(dict(op='data', rows=[list(r_) for r_ in cur_rows]))
+        elif r < 0.95:
+            steps.append(dict(op='mutret'))
+        else:
+            steps.append(dict(op='read'))
+    if pool:
+        steps.append(dict(pool[0]))
+    yield _hist(stream, be, rows, objs, attrs, steps)
+
+
+def _wide_cases(rng, stream):
+    """H3: >= 9 attributes / >= 13 objects (two-digit indexes; small sets containing an index >= 8 iterate out of
+    order), index collections given as sets / frozensets / one-shot iterables, unsorted lists"""
+    n, m = rng.choice((3, 5, 9, 13, 14)), rng.choice((9, 10, 11))
+    d = rng.choice((0.5, 0.7, 0.85))
+    rows = [[int(rng.random() < d) for _ in range(m)] for _ in range(n)]
+    be = rng.choice(BACKENDS)
+    for _ in range(4):
+        g = rng.sample(range(n), rng.randint(1, min(n, 3)))
+        intent = [a for a in range(m) if all(rows[x][a] for x in g)] if rng.random() < 0.85 else \
+            sorted(rng.sample(range(m), rng.randint(1, 4)))
+        hi = [a for a in intent if a >= 8]
+        bg = rng.sample(intent, rng.randint(0, min(2, len(intent))))
+        if hi and rng.random() < 0.5:
+            bg = [hi[0]] + [a for a in bg if a != hi[0]][:1]
+        bo = None if rng.random() < 0.4 else rng.sample(range(n), rng.randint(max(1, n - 3), n))
+        rng.shuffle(intent)
+        mode = rng.choice(('i', 'gi', 'n'))
+        kinds = CONT_NAME[:-1] if mode == 'n' else CONT_IDX[:-1]
+        cont = [rng.choice(('set', 'frozenset', rng.choice(kinds))) for _ in range(3)]
+        yield _fc(stream, be, rows, mode, intent, bg, bo, objs=OBJ[:n], attrs=ATT[:m], cont=cont)
+
+
+# ------------------------------------------------------------------ histories on ONE many-valued context (H1, H2)
+def _mvhist(stream, cols, steps, numpy_on=True):
+    n = len(cols[0])
+    return dict(stream=stream, kind='mvhist', cols=cols, objs=OBJ[:n], psnames=[f'p{j}' for j in range(len(cols))],
+                np=numpy_on, steps=steps)
+
+
+def _mvq(mode, intent, bo, bgspec=None, cont='list'):
+    """query step.  mode 'i': `intent` = list of descriptions per pattern-structure INDEX, bo = object indexes;
+    mode 'n': `intent` = {ps name: description}, bo = object NAMES, bgspec = [[ps name, side]]."""
+    return dict(op='q', mode=mode, intent=intent, bo=bo, bgspec=bgspec, cont=[cont])
+
+
+def _mvhist_states(c):
+    """replay on plain data: yields (step, cols, psnames, objs) for every query step"""
+    cols, psn, objs = [list(col) for col in c['cols']], list(c['psnames']), list(c['objs'])
+    for st in c['steps']:
+        op = st['op']
+        if op == 'psdata':
+            cols[st['j']] = [list(x) for x in st['col']]
+        elif op == 'permps':
+            cols = [cols[p] for p in st['perm']]
+            psn = [psn[p] for p in st['perm']]
+        elif op == 'objs':
+            objs = list(st['names'])
+        elif op == 'q':
+            yield st, [list(col) for col in cols], list(psn), list(objs)
+
+
+def _mvhist_queries(c):
+    """the equivalent single-query index cases for the CURRENT content"""
+    for st, cols, psn, objs in _mvhist_states(c):
+        if st['mode'] == 'n':
+            intent = [st['intent'].get(nm) for nm in psn]
+            bo = None if st['bo'] is None else [g for g, nm in enumerate(objs) if nm in st['bo']]
+            bgspec = None if not st['bgspec'] else [[psn.index(nm), side] for nm, side in st['bgspec'] if nm in psn]
+        else:
+            intent, bo, bgspec = st['intent'], st['bo'], st['bgspec']
+        yield dict(stream=c['stream'], kind='mv', cols=cols, iobjs=[], intent=intent, bo=bo, bgspec=bgspec, np=c['np'],
+                   qmode=st['mode'])
+
+
+def _mv_terminates(cols, intent, bo):
+    """the routine is only known to return when the base objects are ascending and contain the extension of the intent"""
+    n = len(cols[0])
+    if any(d is None for d in intent):
+        return True
+    ext = _mv_ext(cols, intent, range(n))
+    return bo is None or (bo == sorted(bo) and set(ext) <= set(bo))
+
+
+def _impl_mvhist(c):
+    from fcapy import LIB_INSTALLED
+    from fcapy.mvcontext import MVContext, pattern_structure as PS
+    import signal
+    cols = c['cols']
+    n = len(cols[0])
+    old = LIB_INSTALLED['numpy']
+    LIB_INSTALLED['numpy'] = bool(c['np']) and old
+
+    def _alarm(signum, frame):
+        raise _Timeout()
+    prev = signal.signal(signal.SIGALRM, _alarm)
+    outs = []
+    slot = []
+    try:
+        K = MVContext([[tuple(col[g]) for col in cols] for g in range(n)],
+                      pattern_types={nm: PS.IntervalPS for nm in c['psnames']}, attribute_names=list(c['psnames']),
+                      object_names=list(c['objs']))
+        qs = list(_mvhist_queries(c))
+        qk = 0
+        for k, st in enumerate(c['steps']):
+            op = st['op']
+            if op == 'psdata':
+                K.pattern_structures[st['j']].data = [tuple(x) for x in st['col']]
+            elif op == 'permps':
+                K.pattern_structures = [K.pattern_structures[p] for p in st['perm']]
+            elif op == 'objs':
+                K.object_names = list(st['names'])
+            elif op == 'q':
+                pc = qs[qk]
+                qk += 1
+                psn = [ps.name for ps in K.pattern_structures]
+                fl = lambda d: None if d is None else (float(d[0]), float(d[1]))
+                _, bg = _mv_intent_and_bg(pc)          # index-keyed base generator of the current content
+                signal.setitimer(signal.ITIMER_REAL, MV_TIMEOUT_S)
+                try:
+                    if st['mode'] == 'n':
+                        intent = {nm: fl(d) for nm, d in st['intent'].items()}
+                        bgn = None if bg is None else {psn[j]: d for j, d in bg.items()}
+                        r = K.get_minimal_generators(intent, base_generator=bgn,
+                                                     base_objects=_wrap(st['bo'], st['cont'][0], slot), use_indexes=False)
+                        r = [{psn.index(nm): d for nm, d in g.items()} for g in r]
+                    else:
+                        intent = {j: fl(d) for j, d in enumerate(st['intent'])}
+                        r = K.get_minimal_generators(intent, base_generator=bg,
+                                                     base_objects=_wrap(st['bo'], st['cont'][0], slot), use_indexes=True)
+                    out = [sorted([[int(j), _enc_descr(d)] for j, d in g.items()], key=lambda p_: p_[0]) for g in r]
+                    outs.append({'ok': sorted(out, key=repr), 'dups': len(set(map(repr, out))) != len(out)})
+                except _Timeout:
+                    outs.append({'err': 'Timeout'})
+                except Exception as e:
+                    outs.append({'err': exc_name(e)})
+                finally:
+                    signal.setitimer(signal.ITIMER_REAL, 0)
+        return {'outs': outs}
+    except Exception as e:
+        return {'steperr': f'{exc_name(e)}: {str(e)[:120]}', 'outs': outs}
+    finally:
+        signal.setitimer(signal.ITIMER_REAL, 0)
+        signal.signal(signal.SIGALRM, prev)
+        LIB_INSTALLED['numpy'] = old
+
+
+def _judge_mvhist(c, io, rep):
+    if 'steperr' in io:
+        return dict(ok=False, kind='property', detail='a public mutator / constructor failed: ' + io['steperr'])
+    worst = None
+    for k, pc in enumerate(_mvhist_queries(c)):
+        v = _judge_mv(pc, io['outs'][k], rep[k:k + 1])
+        if not v['ok']:
+            v = dict(v, qmode=pc['qmode'], detail=f'query #{k} of the history (current columns {pc["cols"]}, intent '
+                                                  f'{pc["intent"]}, base objects {pc["bo"]}): ' + v['detail'])
+            if v['kind'] == 'property':
+                return v
+            worst = worst or v
+    return worst or dict(ok=True)
+
+
+def _mvhist_cases(cols, stream, rng):
+    """query -> public mutation (new column data / pattern structures re-ordered / objects renamed) -> same query"""
+    n, k = len(cols[0]), len(cols)
+    psn, objs = [f'p{j}' for j in range(k)], OBJ[:n]
+
+    def build(steps):
+        c = _mvhist(stream, cols, steps, numpy_on=rng.random() < 0.7)
+        # keep only histories all of whose queries are inside the terminating scope for the content at that time
+        if all(_mv_terminates(pc['cols'], pc['intent'], pc['bo']) for pc in _mvhist_queries(c)):
+            return c
+        return None
+    for iobjs in _subsets(n):
+        if not iobjs:
+            continue
+        intent = _mv_int(cols, iobjs)
+        ext = _mv_ext(cols, intent, range(n))
+        rest = [g for g in range(n) if g not in ext]
+        bo = sorted(ext + rng.sample(rest, rng.randint(0, len(rest)))) if rng.random() < 0.7 else None
+        bgspec = None if rng.random() < 0.6 else [[rng.randrange(k), rng.choice('LR')]]
+        cont = rng.choice(('list', 'set', 'frozenset', 'samelist')) if n < 8 else 'list'
+        qi = _mvq('i', intent, bo, bgspec, cont if cont != 'frozenset' else 'list')
+        qn = _mvq('n', {psn[j]: d for j, d in enumerate(intent)}, None if bo is None else [objs[g] for g in bo],
+                  None if not bgspec else [[psn[j], sd] for j, sd in bgspec], cont)
+        muts = []
+        j = rng.randrange(k)
+        muts.append(dict(op='psdata', j=j, col=rng.sample(cols[j], n)))
+        muts.append(dict(op='psdata', j=j, col=[[min(a + 1, 5), min(b + 1, 5)] if rng.random() < 0.5 else [a, b]
+                                                 for a, b in cols[j]]))
+        if k > 1:
+            muts.append(dict(op='permps', perm=rng.sample(range(k), k)))
+        muts.append(dict(op='objs', names=rng.sample(objs, n)))
+        for mu in muts:
+            for steps in ([qn, mu, qn], [qi, mu, qi], [qi, qn, mu, qn, qi]):
+                c = build(steps)
+                if c is not None:
+                    yield c
